@@ -293,47 +293,98 @@ theorem C15_shutdown {β : Type} (p : Plugin) (hd : Handlers) (hnew : setupHandl
   | true => have : p.has .shutdown = true := hp; simp [dispatch, hb, this]
 
 /-- Restart invariance. Reuse one stub for any number of sessions (Start, configuration,
-    requests, Stop or connection loss, Start again …): what the stub does in a session — the
-    Configure invocation and its answer, every handler invocation and every reply — is what a
-    freshly created stub of the same plugin type would do in that session. It does not depend on
-    the masks asked for, the errors returned or the requests handled in earlier sessions: the
-    implemented-events mask and the handler table are not changed by use. -/
+    requests, Stop or connection loss, Start again …): everything visible of a session — the
+    Configure invocation and its answer (the subscription), every handler invocation and every
+    reply — is what a freshly created stub of the same plugin type would show in that session.
+    It is independent of ALL earlier sessions: of the masks asked for, the timeouts passed, the
+    errors returned and the requests handled. The handler table with the implemented-events
+    mask is not changed by use. (The stub must have been created with a positive registration
+    timeout — `New` sets 5 s — and nothing half-collected.) -/
 theorem C15_restart_invariant {β : Type} (hd : Handlers) (d : Dyn β) (hd0 : d.syncReq = none)
-    (pre : List (Session β)) (s : Session β) :
-    (runSessions ⟨hd, d⟩ (pre ++ [s])).1.getLast? = some (runSession ⟨hd, {}⟩ s).1 ∧
+    (hp : 0 < d.regTimeoutNs) (pre : List (Session β)) (s : Session β) :
+    (∃ o, (runSessions ⟨hd, d⟩ (pre ++ [s])).1.getLast? = some o ∧
+          o.visible = (runSession ⟨hd, {}⟩ s).1.visible) ∧
     (runSessions ⟨hd, d⟩ (pre ++ [s])).2.handlers = hd := by
   have hst := runSessions_state ⟨hd, d⟩ pre
-  refine ⟨?_, (runSessions_state ⟨hd, d⟩ (pre ++ [s])).1⟩
-  rw [runSessions_append]
-  simp only [List.getLast?_append, List.getLast?_singleton, Option.some_or]
-  rw [runSession_indep (runSessions ⟨hd, d⟩ pre).2 ⟨hd, {}⟩ hst.1 (hst.2 hd0)]
+  have hfresh : (0 : Int) < ({} : Dyn β).regTimeoutNs := by show (0 : Int) < 5000000000; omega
+  refine ⟨⟨(runSession (runSessions ⟨hd, d⟩ pre).2 s).1, ?_, ?_⟩, (runSessions_state ⟨hd, d⟩ (pre ++ [s])).1⟩
+  · rw [runSessions_append]
+    simp only [List.getLast?_append, List.getLast?_singleton, Option.some_or]
+  · exact (runSession_equiv (runSessions ⟨hd, d⟩ pre).2 ⟨hd, {}⟩ hst.1 (hst.2.1 hd0) (hst.2.2 hp)
+      hfresh s).1
 
-/-- In particular the configuration answer of a later session is the one `C15_configure`
-    describes in terms of the plugin type alone: an empty request again means everything
-    implemented, a subset of the implemented events is granted even if an earlier session asked
-    for less, an unimplemented event is refused. -/
+/-- In particular the configuration of a later session is the one `C15_configure` describes in
+    terms of the plugin type alone: Configure is invoked (registration cannot fail on a zero
+    deadline), an empty request again means everything implemented, a subset of the implemented
+    events is granted even if an earlier session asked for less, an unimplemented event is
+    refused. -/
 theorem C15_restart_configure {β : Type} (p : Plugin) (hd : Handlers) (hnew : setupHandlers p = .ok hd)
-    (d : Dyn β) (hd0 : d.syncReq = none) (pre : List (Session β)) (s : Session β) :
+    (d : Dyn β) (hd0 : d.syncReq = none) (hp : 0 < d.regTimeoutNs) (pre : List (Session β)) (s : Session β) :
     ∃ o, (runSessions ⟨hd, d⟩ (pre ++ [s])).1.getLast? = some o ∧
-      (o.cfg.calls, o.cfg.result) =
+      o.cfg.visible =
         ((configure hd s.cfgB s.config s.runtime s.version).1,
          (configure hd s.cfgB s.config s.runtime s.version).2.map Reply.configure) ∧
       (p.configure = true → (s.cfgB .configure (.config s.config s.runtime s.version)).err = none →
         (s.cfgB .configure (.config s.config s.runtime s.version)).events = 0#32 →
         o.cfg.result = .ok (.configure (subscribe p))) := by
-  refine ⟨_, (C15_restart_invariant hd d hd0 pre s).1, ?_, ?_⟩
-  · rw [runSession_cfg]
+  obtain ⟨⟨o, hlast, hvis⟩, _⟩ := C15_restart_invariant hd d hd0 hp pre s
+  have hfresh : (runSession ⟨hd, ({} : Dyn β)⟩ s).1.cfg.visible =
+      ((configure hd s.cfgB s.config s.runtime s.version).1,
+       (configure hd s.cfgB s.config s.runtime s.version).2.map Reply.configure) := by
+    have hfresh : (0 : Int) < ({} : Dyn β).regTimeoutNs := by show (0 : Int) < 5000000000; omega
+    rw [runSession_cfg _ _ hfresh]
     have := dispatch_configure_eq hd s.cfgB ({} : Dyn β) s.config s.runtime s.version s.regMs s.reqMs
-    rw [this.1, this.2]
-  · intro hp herr hz
-    have hc := C15_configure p hd hnew s.cfgB s.config s.runtime s.version
-    rw [runSession_cfg, (dispatch_configure_eq hd s.cfgB ({} : Dyn β) s.config s.runtime s.version s.regMs s.reqMs).2, hc]
-    simp [hp, herr, hz, Except.map]
+    simp only [Outcome.visible, this.1, this.2.1]
+  have hcfg : o.cfg.visible = (runSession ⟨hd, ({} : Dyn β)⟩ s).1.cfg.visible := congrArg Prod.fst hvis
+  refine ⟨o, hlast, hcfg.trans hfresh, ?_⟩
+  intro hpc herr hz
+  have hres : o.cfg.result = (configure hd s.cfgB s.config s.runtime s.version).2.map Reply.configure :=
+    congrArg Prod.snd (hcfg.trans hfresh)
+  rw [hres, C15_configure p hd hnew s.cfgB s.config s.runtime s.version]
+  simp [hpc, herr, hz, Except.map]
 
 example : ((runSessions (β := Nat) ⟨setupOrder.foldl (setupStep ⟨0b111#13, true, false, false⟩) Handlers.empty, {}⟩
-            [ ⟨fun _ _ => { events := 0b001#32 }, [], [], [], 1, 1, []⟩,
-              ⟨fun _ _ => { events := 0#32 }, [], [], [], 1, 1, []⟩,
+            [ ⟨fun _ _ => { events := 0b001#32 }, [], [], [], 0, 1, []⟩,
+              ⟨fun _ _ => { events := 0#32 }, [], [], [], 1, 0, []⟩,
               ⟨fun _ _ => { events := 0b110#32 }, [], [], [], 1, 1, []⟩ ]).1.map (·.cfg.result)) =
           [.ok (.configure 0b001#32), .ok (.configure 0b111#32), .ok (.configure 0b110#32)] := by rfl
+
+/-- Timeouts are sticky. Configure takes over (as nanoseconds) exactly the timeouts the runtime
+    passes (> 0 ms) and keeps the stub's current value for each one it does not; no other
+    request touches them; and the registration timeout therefore stays positive through any
+    sequence of sessions, so that the stub can always register again. -/
+theorem C15_timeouts_sticky {β : Type} (hd : Handlers) (b : Behaviour β) (d : Dyn β) :
+    (∀ c r v regMs reqMs,
+      (dispatch hd b d (.configure c r v regMs reqMs)).dyn.regTimeoutNs =
+        (if regMs > 0 then regMs * 1000000 else d.regTimeoutNs) ∧
+      (dispatch hd b d (.configure c r v regMs reqMs)).dyn.reqTimeoutNs =
+        (if reqMs > 0 then reqMs * 1000000 else d.reqTimeoutNs)) ∧
+    (∀ e s (m : Msg β), slotOfEvent e = some s →
+      (dispatch hd b d (requestFor e m)).dyn.regTimeoutNs = d.regTimeoutNs ∧
+      (dispatch hd b d (requestFor e m)).dyn.reqTimeoutNs = d.reqTimeoutNs) ∧
+    (0 < d.regTimeoutNs → ∀ ss : List (Session β), 0 < (runSessions ⟨hd, d⟩ ss).2.dyn.regTimeoutNs) := by
+  refine ⟨fun c r v regMs reqMs => ?_, fun e s m hs => ?_, fun hp ss => (runSessions_state ⟨hd, d⟩ ss).2.2 hp⟩
+  · rw [(dispatch_configure_eq hd b d c r v regMs reqMs).2.2]
+    exact ⟨rfl, rfl⟩
+  · rcases event_cases hs with h|h|h|h|h|h|h|h|h|h|h|h|h <;> obtain ⟨he, hs'⟩ := h <;> subst he <;> subst hs' <;>
+      simp only [requestFor, dispatch, stateChange, callPod, callPodCtr] <;>
+      (split <;> exact ⟨rfl, rfl⟩)
+
+example : (dispatch (β := Nat) Handlers.empty (fun _ _ => {}) {} (.configure [] [] [] 0 7)).dyn.regTimeoutNs = 5000000000 ∧
+          (dispatch (β := Nat) Handlers.empty (fun _ _ => {}) {} (.configure [] [] [] 0 7)).dyn.reqTimeoutNs = 7000000 := by decide
+
+/-- Witness for the defect repaired by fix 31d2c1d (the unrepaired `Configure` overwrote both
+    timeouts unconditionally): a runtime that passes no registration timeout in the first session
+    leaves the stub with a zero one, the second `Start` cannot register, and the plugin's
+    `Configure` is never invoked again — whereas the repaired stub configures both times. -/
+theorem unfixed_zero_registration_timeout_blocks_restart :
+    let hd := setupOrder.foldl (setupStep ⟨0b11#13, true, false, false⟩) Handlers.empty
+    let s1 : Session Nat := ⟨fun _ _ => { events := 0b01#32 }, [], [], [], 0, 2000, []⟩
+    let s2 : Session Nat := ⟨fun _ _ => { events := 0#32 }, [], [], [], 5000, 2000, []⟩
+    ((runSessionsUnfixed ⟨hd, {}⟩ [s1, s2]).1.map (·.cfg.calls) =
+        [[⟨.configure, .config [] [] []⟩], []]) ∧
+    ((runSessions ⟨hd, {}⟩ [s1, s2]).1.map (·.cfg.calls) =
+        [[⟨.configure, .config [] [] []⟩], [⟨.configure, .config [] [] []⟩]]) := by
+  decide
 
 end Nri.Props.C15
